@@ -37,15 +37,15 @@ func c07Oracle(c ev.Case) Res {
 	in := c.In
 	switch c.Kind {
 	case "tag":
-		if a, b := lib.VIsBlackTag(in), lists.BlackTag(in); a != b {
+		if a, b := lib.VIsBlackTag(in), xlists().BlackTag(in); a != b {
 			return fail("black-tag predicate impl=%v ref=%v", a, b)
 		}
-		return Res{NT: lists.BlackTag(in) || len(in) >= 3, Class: "leaf_tag"}
+		return Res{NT: xlists().BlackTag(in) || len(in) >= 3, Class: "leaf_tag"}
 	case "attr":
-		if a, b := lib.VIsBlackAttr(in), int(lists.BlackAttr(in)); a != b {
+		if a, b := lib.VIsBlackAttr(in), int(xlists().BlackAttr(in)); a != b {
 			return fail("black-attribute predicate impl=%d ref=%d", a, b)
 		}
-		return Res{NT: lists.BlackAttr(in) != refxss.None || len(in) >= 2, Class: "leaf_attr"}
+		return Res{NT: xlists().BlackAttr(in) != refxss.None || len(in) >= 2, Class: "leaf_attr"}
 	case "url":
 		if a, b := lib.VIsBlackURL(in), refxss.BlackURL(in, false); a != b {
 			return fail("URL predicate impl=%v ref=%v", a, b)
@@ -74,13 +74,13 @@ func c07Oracle(c ev.Case) Res {
 				res.NT = true
 			}
 		}
-		if a, b := lib.VIsXSSCtx(in, ctx), lists.IsXSSCtx(in, refxss.Ctx(ctx)); a != b {
+		if a, b := lib.VIsXSSCtx(in, ctx), xlists().IsXSSCtx(in, refxss.Ctx(ctx)); a != b {
 			return fail("ctx %s: verdict impl=%v ref=%v", ctxNames[ctx], a, b)
 		} else if a {
 			res.Class = "verdict_true"
 		}
 	}
-	if a, b := lib.IsXSS(in), lists.IsXSS(in); a != b {
+	if a, b := lib.IsXSS(in), xlists().IsXSS(in); a != b {
 		return fail("IsXSS impl=%v ref=%v", a, b)
 	}
 	if res.Class == "" {
@@ -113,7 +113,7 @@ func htmlTruncationInputs() []string {
 			}
 		}
 	}
-	for _, s := range corpus.HTML {
+	for _, s := range corp().HTML {
 		for k := 0; k <= len(s) && k < 300; k++ {
 			add(s[:k])
 		}
@@ -222,7 +222,7 @@ func TestC07(t *testing.T) {
 	})
 	p = c.rec.NewPart("rapid_corpus_mutation", "rapid: a repository HTML fixture or XSS payload with 1-4 edits", true, false, "")
 	c.Rapid(p, 4, pick(15000, 500000), func(rt *rapid.T, sh int) ev.Case {
-		s := gen.Mutate(rt, rapid.SampledFrom(corpus.HTML).Draw(rt, "base"), gen.FragHTML)
+		s := gen.Mutate(rt, rapid.SampledFrom(corp().HTML).Draw(rt, "base"), gen.FragHTML)
 		if gen.HasUnicodeFold(s) {
 			s = ""
 		}
